@@ -211,6 +211,7 @@ const preludeCore = `(set-option :produce-models true)
 (declare-const str.empty Str)
 (declare-datatypes ((Iface 0)) (((inil) (iref (itag Int) (iptr Int)) (iflt (ftag Int) (ifv F64)) (istr (stag Int) (isv Str)) (ibool (btag Int) (ibv Bool)) (iint (ntag Int) (iiv INTSORT)))))
 (declare-fun fnid (Int) Int)
+(declare-fun objtype (Int) Int)
 (declare-fun impl (Int Int) Bool)
 (declare-fun i2f_ (Int) F64)
 (declare-fun f2i_ (F64) Int)
